@@ -237,7 +237,7 @@ def r5_arith(ctx, F):
     r = vf.render(v.ret(), b, short=True, vfx=v)
     ctx.check("R5-arithmetic", "remap_id/in-range", "Add(Sub(value, from_base), to_base)" in r or "Add(to_base, Sub(value, from_base))" in r,
               "remap_id no longer computes value - from_base + to_base inside the range: %s" % r[:300], loc=b.loc(), detail=r[:200])
-    ctx.check("R5-arithmetic", "remap_id/range-test", "Ge(value, from_base)" in r and "Lt(Sub(value, from_base), range)" in r,
+    ctx.check("R5-arithmetic", "remap_id/range-test", vf.fact("Ge(value, from_base)") in r and "Lt(Sub(value, from_base), range)" in r,
               "remap_id's range test is not `value >= from_base && value - from_base < range`: %s" % r[:300], loc=b.loc())
     ctx.check("R5-arithmetic", "remap_id/identity-outside", "=> value" in r, "remap_id does not return ids outside the range unchanged", loc=b.loc())
     b = F.method(VFS, "get_effective_id_mapping")
